@@ -266,17 +266,21 @@ def r12_4(ctx):
               "the trap function first saves $? and finally exits with it (the command's exit code is preserved)",
               "the trap function does not start with `<name>=$?` / end with `exit $<name>`")
     joined = "\n".join(body)
-    m = re.search(r"\(\n(.*)\n\)\s*>\s*\"\$__SCRUT_TEMP_STATE_PATH/state\"", joined, re.S)
+    m = re.search(r"\(\n(.*)\n\)\s*(>\|?)\s*\"\$__SCRUT_TEMP_STATE_PATH/state\"", joined, re.S)
     ctx.check(m is not None, "dump-target", where, "the dump group is redirected to the very file that is sourced ($__SCRUT_TEMP_STATE_PATH/state)")
     group = m.group(1) if m else ""
+    # F34: the state file exists from the second test case on - with `set -C` (noclobber) restored from the state a plain `>` fails and the dump is lost
+    ctx.check(m is not None and m.group(2) == ">|", "dump-overwrites", where, "the dump is written with `>|` (also when the test cases have set noclobber)",
+              "the dump is written with `>`: once a test case has run `set -C`, every later dump fails with `cannot overwrite existing file` - the state of those test "
+              "cases is silently lost and their successors keep seeing the state of the one that set the option")
     need = {
         "set-options": r"(?m)^set \+o$",
         "shopt-options": r"(?m)^shopt -p$",
         "aliases": r"(?m)^alias( -p)?$",
         "functions": r"(?m)^(declare|typeset) -f$",
         "variables": r"eval \"\$__SCRUT_DECLARE_VARS_CMD\"",
-        "cwd": r"printf \"cd %q",
-        "dirstack": r"printf \"pushd %q",
+        "cwd": r"printf \"(builtin )?cd %q",
+        "dirstack": r"printf \"(builtin )?pushd %q",
     }
     for k, pat in need.items():
         ctx.check(re.search(pat, group) is not None, "dump:" + k, where, "the state dump contains the `%s` printer" % k, "the state dump no longer prints %s" % k)
@@ -291,6 +295,16 @@ def r12_4(ctx):
               "`set +o` / `shopt -p` are dumped before functions and variables (parser-affecting options are active again when the rest of the state is sourced)",
               "the option dumps come after the function / variable dumps: a function using extglob patterns no longer parses when the state is sourced, and everything after it is lost")
     ctx.check("{excluded_variables}" in group, "dump:exclusion-filter", where, "the variable dump is filtered by {excluded_variables}")
+    # F38: functions and aliases are restored before the directory lines are run - a plain `cd` / `pushd` there calls a user function of that name
+    plain = re.findall(r"printf \"(cd|pushd) %q", group)
+    ctx.check(not plain, "dump:dir-builtin", where, "the directory lines of the state are `builtin cd` / `builtin pushd`",
+              "the state restores directories with plain %s: after a test case defined a function or alias of that name, sourcing the state runs it - its output "
+              "appears in the next test case" % sorted(set(plain)))
+    # F39: those lines overwrite the OLDPWD that was restored with the variables; it is set again behind them
+    p_old = pos(r"printf \"OLDPWD=%q")
+    p_dirs = [pos(need["cwd"]), pos(need["dirstack"])]
+    ctx.check(p_old is not None and None not in p_dirs and p_old > max(p_dirs), "dump:oldpwd-last", where, "OLDPWD is written after the cd / pushd lines",
+              "the state does not set OLDPWD after its cd / pushd lines: `cd -` in the next test case goes to the wrong directory")
     ctx.check(re.search(r"(?m)^shopt -s expand_aliases$", "\n".join(top)) is not None, "expand-aliases", where, "aliases are expanded in the non-interactive shell")
     ctx.check("unset -f __scrut_persist_state" in joined, "trap-not-persisted", where, "the trap function removes itself before dumping functions")
 
